@@ -86,7 +86,7 @@ def cmd_check(sid, props, scale, tier):
             res = subprocess.run([PY, os.path.join(HERE, 'run.py'), p, '--tier', tier, '--scale', str(scale)],
                                  env=dict(os.environ, VERIF_REPO=r, VERIF_EVIDENCE_DIR=os.path.join(tmp, 'evidence')), capture_output=True, text=True)
             verdict = {0: 'missed', 1: 'caught', 2: 'harness-error'}.get(res.returncode, 'rc=%d' % res.returncode)
-            first = next((l.strip() for l in res.stderr.splitlines() if l.startswith('  ')), '')[:300]
+            first = next((l.strip() for l in res.stderr.splitlines() if l.startswith('  replays/')), '')[:300]
             results[p] = {'verdict': verdict, 'tier': tier, 'scale': scale, 'first_failure': first}
             print('%-22s %-4s %-8s %s' % (sid, p, verdict, first[:200]), flush=True)
     finally:
